@@ -1,18 +1,12 @@
 import Gonuts.Model.Sexp
 import Gonuts.Model.Mint
 /-!
-  Driver glue for the stateful `mint.*` commands: parse an op line, run the model program on the
-  session's world, render `(outcome (storage-trace…) (lightning-calls…))` exactly as the harness
-  canonicalises the real mint's behaviour.  Core-only.
+  Driver glue for the stateful `mint.*` commands: parse an op line into `Mint.Op`, run
+  `Mint.applyOp` on the session, render `(outcome (storage-trace…) (lightning-calls…))` exactly as
+  the harness canonicalises the real mint's behaviour.  Core-only.
 -/
 namespace Gonuts.Model.MintDriver
 open Gonuts Gonuts.Model Gonuts.Model.Mint
-
-structure Sess where
-  w : World := {}
-  /-- mint quotes whose invoice watcher goroutine is alive (cleared by a restart) -/
-  watchers : List Nat := []
-  deriving Inhabited
 
 def u64? (s : Sexp) : Option UInt64 := do
   let n ← s.asNat?
@@ -98,165 +92,99 @@ def yref? : Sexp → Option YRef
   | .list [.atom "unk", t] => do some (.unk (← t.asNat?))
   | _ => none
 
-def errSx (e : E) : Sexp := l [a "err", Sexp.ofNat e.1, .str e.2]
-
-def sigsSx (sigs : List BSig) : Sexp :=
-  l [a "ok", l (sigs.map (fun s => l [ofU64 s.amount, Sexp.ofNat s.ks, Sexp.ofNat s.b]))]
-
-def callSx (c : LnCall) : Sexp := l [a c.kind, ofInt c.hash, ofU64 c.msat, ofU64 c.maxFee, a c.ans]
-
-def cx (s : Sess) : Cx := { mem := s.w.mem, cfg := s.w.cfg }
-
-/-- Run a program as one operation: fresh trace and call log, the given Lightning script. -/
-def runOp {α} (s : Sess) (p : PM α) (script : List LnAns) (render : α → Sexp) (sortCalls : Bool := false) :
-    Sess × Sexp × Except E α :=
-  let w0 := { s.w with trace := [], ln := { s.w.ln with script := script, calls := [] } }
-  let (w1, r) := (p.run).run w0
-  let out := match r with
-    | .ok v => render v
-    | .error e => errSx e
-  let calls := if sortCalls then w1.ln.calls.mergeSort (fun x y => x.hash ≤ y.hash) else w1.ln.calls
-  let res := l [out, l (w1.trace.map a), l (calls.map callSx)]
-  ({ s with w := { w1 with ln := { w1.ln with script := [], failInvoiceStatus := 0, failCreateInvoice := 0 } } }, res, r)
-
-def lqPre (q : MeltQ) : Nat := if q.preimage == 0 then 0 else if q.preimage == q.hash + 1 then 1 else 2
-
-def sortKs (xs : List (Nat × UInt64)) : List (Nat × UInt64) := xs.mergeSort (fun x y => x.1 ≤ y.1)
-
-def msatOf (s : Sess) (h : Nat) : UInt64 := invMsat s.w.ln h
-
-def handle (s : Sess) (cmd : String) (args : List Sexp) : Option (Sess × Sexp) :=
+/-- Parse an op line. -/
+def op? (cmd : String) (args : List Sexp) : Option Op :=
   match cmd, args with
-  | "mint.init", [fee, feePct, mpp, maxMint, maxBal, maxMelt] => do
-    let k0 : KsRow := { idx := 0, active := true, fee := ← u64? fee }
-    let w : World := { db := { keysets := [k0] }, mem := { keysets := [k0], active := 0 },
-                       ln := { feePct := ← feePct.asBool? },
-                       cfg := { mpp := ← mpp.asBool?, maxMint := ← u64? maxMint, maxBalance := ← u64? maxBal, maxMelt := ← u64? maxMelt } }
-    some ({ w := w, watchers := [] }, l [a "ok"])
-  | "mint.extinvoice", [id, msat] => do
-    let id ← id.asNat?
-    if id != s.w.ln.invoices.length then none
-    let inv : Invoice := { id := id, msat := ← u64? msat, settled := false, external := true }
-    some ({ s with w := { s.w with ln := { s.w.ln with invoices := s.w.ln.invoices ++ [inv] } } }, l [a "ok"])
-  | "mint.settle", [h] => do
-    let h ← h.asNat?
-    let invs := s.w.ln.invoices.map (fun i => if i.id == h then { i with settled := true } else i)
-    some ({ s with w := { s.w with ln := { s.w.ln with invoices := invs } } }, l [a "ok"])
+  | "mint.extinvoice", [id, msat] => do some (.extInvoice (← id.asNat?) (← u64? msat))
+  | "mint.settle", [h] => do some (.settle (← h.asNat?))
   | "mint.mintquote", [amt, unit, pk, lnFail] => do
-    let amt ← u64? amt
-    let unitSat := (← unit.asStr?) == "sat"
-    let pk ← pk? pk
-    let lnFail ← lnFail.asBool?
-    let qid := s.w.nextMintQ
-    let s0 := { s with w := { s.w with ln := { s.w.ln with failCreateInvoice := if lnFail then 1 else 0 } } }
-    let (s1, res, r) := runOp s0 (requestMintQuote (cx s) qid amt unitSat pk) []
-      (fun q => l [a "ok", Sexp.ofNat q.id, ofU64 q.amount, Sexp.ofNat q.hash, a q.state.str])
-    match r with
-    | .ok _ => some ({ s1 with w := { s1.w with nextMintQ := qid + 1 }, watchers := qid :: s1.watchers }, res)
-    | .error _ => some (s1, res)
-  | "mint.notify", [q] => do
-    let q ← q.asNat?
-    if s.watchers.contains q then
-      let (s1, res, _) := runOp s (watcherNotified q) [] (fun wrote => l [a "ok", a (if wrote then "wrote" else "no-write")])
-      some ({ s1 with watchers := s1.watchers.filter (· != q) }, res)
-    else
-      some (s, l [l [a "ok", a "no-subscriber"], l [], l []])
-  | "mint.quotestate", [q, lnFail] => do
-    let q ← int? q
-    let lnFail ← lnFail.asBool?
-    let s0 := { s with w := { s.w with ln := { s.w.ln with failInvoiceStatus := if lnFail then 1 else 0 } } }
-    let (s1, res, _) := runOp s0 (getMintQuoteState q) [] (fun mq => l [a "ok", a mq.state.str])
-    some (s1, res)
-  | "mint.mint", [q, outs, sig] => do
-    let q ← int? q
-    let outs ← listOf? bmsg? outs
-    let sig ← qsig? sig
-    let (s1, res, _) := runOp s (mintTokens (cx s) q outs sig) [] sigsSx
-    some (s1, res)
-  | "mint.swap", [ps, outs] => do
-    let ps ← listOf? proof? ps
-    let outs ← listOf? bmsg? outs
-    let (s1, res, _) := runOp s (swap (cx s) ps outs none) [] sigsSx
-    some (s1, res)
-  | "mint.swap", [ps, outs, v] => do
-    let ps ← listOf? proof? ps
-    let outs ← listOf? bmsg? outs
-    let v ← verdict? v
-    let (s1, res, _) := runOp s (swap (cx s) ps outs v) [] sigsSx
-    some (s1, res)
+    some (.mintQuote (← u64? amt) ((← unit.asStr?) == "sat") (← pk? pk) (← lnFail.asBool?))
+  | "mint.notify", [q] => do some (.notify (← q.asNat?))
+  | "mint.quotestate", [q, lnFail] => do some (.quoteState (← int? q) (← lnFail.asBool?))
+  | "mint.mint", [q, outs, sig] => do some (.mint (← int? q) (← listOf? bmsg? outs) (← qsig? sig))
+  | "mint.swap", [ps, outs] => do some (.swap (← listOf? proof? ps) (← listOf? bmsg? outs) none)
+  | "mint.swap", [ps, outs, v] => do some (.swap (← listOf? proof? ps) (← listOf? bmsg? outs) (← verdict? v))
   | "mint.meltquote", [inv, unit, mpp] => do
     let inv ← (match inv with
       | .list [.atom "inv", h] => do some (InvReq.inv (← h.asNat?))
       | .list [.atom "noamount", h] => do some (InvReq.inv (← h.asNat?))
       | .atom "bad" => some InvReq.bad
       | _ => none)
-    let unitSat := (← unit.asStr?) == "sat"
     let mpp ← (match mpp with
       | .atom "none" => some none
       | .list [.atom "mpp", m] => do some (some (← u64? m))
       | _ => none)
-    let qid := s.w.nextMeltQ
-    let (s1, res, r) := runOp s (requestMeltQuote (cx s) qid inv (msatOf s) unitSat mpp) []
-      (fun q => l [a "ok", Sexp.ofNat q.id, ofU64 q.amount, ofU64 q.feeReserve, Sexp.ofBool q.isMpp])
-    match r with
-    | .ok _ => some ({ s1 with w := { s1.w with nextMeltQ := qid + 1 } }, res)
-    | .error _ => some (s1, res)
-  | "mint.melt", [q, ps, script] => do
-    let q ← int? q
-    let ps ← listOf? proof? ps
-    let script ← listOf? ans? script
-    let (s1, res, _) := runOp s (meltTokens (cx s) q ps) script
-      (fun mq => l [a "ok", a mq.state.str, Sexp.ofNat (lqPre mq)])
-    some (s1, res)
-  | "mint.meltstate", [q, script] => do
-    let q ← int? q
-    let script ← listOf? ans? script
-    let (s1, res, _) := runOp s (getMeltQuoteState q) script
-      (fun mq => l [a "ok", a mq.state.str, Sexp.ofNat (lqPre mq)])
-    some (s1, res)
-  | "mint.checkstate", [ys, script] => do
-    let ys ← listOf? yref? ys
-    let script ← listOf? ans? script
-    let (s1, res, _) := runOp s (proofsStateCheck ys) script
-      (fun sts => l [a "ok", l (sts.map (fun (st, w) => l [a st.str, Sexp.ofNat w]))]) (sortCalls := true)
-    some (s1, res)
-  | "mint.restore", [bs] => do
-    let bs ← listOf? Sexp.asNat? bs
-    let (s1, res, _) := runOp s (restoreSigs bs) []
-      (fun sigs => l [a "ok", l (sigs.map (fun sg => l [Sexp.ofNat sg.b, ofU64 sg.amount, Sexp.ofNat sg.ks]))])
-    some (s1, res)
-  | "mint.balance", [] => do
-    let kv (xs : List (Nat × UInt64)) : Sexp := l ((sortKs xs).map (fun (k, v) => l [Sexp.ofNat k, ofU64 v]))
-    let (s1, res, _) := runOp s (balanceOp (cx s)) []
-      (fun b => l [a "ok", kv b.issued, kv b.redeemed, ofU64 b.total, Sexp.ofBool b.disabled])
-    some (s1, res)
-  | "mint.rotate", [fee] => do
-    let fee ← u64? fee
-    let w0 := { s.w with trace := [], ln := { s.w.ln with calls := [] } }
-    let (w1, (mem', r)) := (rotateKeyset s.w.mem fee).run w0
-    let out := match r with
-      | .ok idx => l [a "ok", Sexp.ofNat idx, ofU64 fee]
-      | .error e => errSx e
-    some ({ s with w := { w1 with mem := mem' } }, l [out, l (w1.trace.map a), l []])
-  | "mint.restart", [rotate, fee] => do
-    let rotate ← rotate.asBool?
-    let fee ← u64? fee
-    -- clean shutdown + LoadMint on the same directory: memory is rebuilt from storage; load-time
-    -- storage calls bypass the proxy (no trace)
-    let mem0 := memOfDb s.w.db
-    let w0 := { s.w with mem := mem0, trace := [], ln := { s.w.ln with calls := [] } }
-    if rotate then
-      let (w1, (mem', r)) := (rotateKeyset mem0 fee).run w0
-      match r with
-      | .ok _ => some ({ w := { w1 with mem := mem', trace := [] }, watchers := [] }, l [l [a "ok", Sexp.ofNat mem'.active], l [], l []])
-      | .error e => some ({ w := { w1 with mem := mem', trace := [] }, watchers := [] }, l [errSx e, l [], l []])
-    else
-      some ({ w := w0, watchers := [] }, l [l [a "ok", Sexp.ofNat mem0.active], l [], l []])
-  | "mint.fault", [k] => do
-    -- arm a storage fault: the k-th storage call of the next operation fails
-    let k ← k.asNat?
-    some ({ s with w := { s.w with faultAt := some k, nDb := 0 } }, l [a "ok"])
-  | "mint.nofault", [] => some ({ s with w := { s.w with faultAt := none } }, l [a "ok"])
+    some (.meltQuote inv ((← unit.asStr?) == "sat") mpp)
+  | "mint.melt", [q, ps, script] => do some (.melt (← int? q) (← listOf? proof? ps) (← listOf? ans? script))
+  | "mint.meltstate", [q, script] => do some (.meltState (← int? q) (← listOf? ans? script))
+  | "mint.checkstate", [ys, script] => do some (.checkState (← listOf? yref? ys) (← listOf? ans? script))
+  | "mint.restore", [bs] => do some (.restore (← listOf? Sexp.asNat? bs))
+  | "mint.balance", [] => some .balance
+  | "mint.rotate", [fee] => do some (.rotate (← u64? fee))
+  | "mint.restart", [rotate, fee] => do some (.restart (← rotate.asBool?) (← u64? fee))
+  | "mint.fault", [k] => do some (.armFault (← k.asNat?))
+  | "mint.nofault", [] => some .disarm
   | _, _ => none
+
+def errSx (e : E) : Sexp := l [a "err", Sexp.ofNat e.1, .str e.2]
+
+def exc {α} (r : Except E α) (f : α → Sexp) : Sexp :=
+  match r with
+  | .ok v => f v
+  | .error e => errSx e
+
+def sigsSx (sigs : List BSig) : Sexp :=
+  l [a "ok", l (sigs.map (fun s => l [ofU64 s.amount, Sexp.ofNat s.ks, Sexp.ofNat s.b]))]
+
+def callSx (c : LnCall) : Sexp := l [a c.kind, ofInt c.hash, ofU64 c.msat, ofU64 c.maxFee, a c.ans]
+
+def lqPre (q : MeltQ) : Nat := if q.preimage == 0 then 0 else if q.preimage == q.hash + 1 then 1 else 2
+
+def sortKs (xs : List (Nat × UInt64)) : List (Nat × UInt64) := xs.mergeSort (fun x y => x.1 ≤ y.1)
+
+def meltSx (q : MeltQ) : Sexp := l [a "ok", a q.state.str, Sexp.ofNat (lqPre q)]
+
+/-- Render a result the way the harness canonicalises the real outcome. `fee`: the rotate op echoes it. -/
+def resSx (op : Op) : Res → Sexp
+  | .unit => l [a "ok"]
+  | .mintQuote r => exc r (fun q => l [a "ok", Sexp.ofNat q.id, ofU64 q.amount, Sexp.ofNat q.hash, a q.state.str])
+  | .notify none => l [a "ok", a "no-subscriber"]
+  | .notify (some b) => l [a "ok", a (if b then "wrote" else "no-write")]
+  | .quoteState r => exc r (fun q => l [a "ok", a q.state.str])
+  | .sigs r => exc r sigsSx
+  | .meltQuote r => exc r (fun q => l [a "ok", Sexp.ofNat q.id, ofU64 q.amount, ofU64 q.feeReserve, Sexp.ofBool q.isMpp])
+  | .melt r => exc r meltSx
+  | .states r => exc r (fun sts => l [a "ok", l (sts.map (fun (st, w) => l [a st.str, Sexp.ofNat w]))])
+  | .restored r => exc r (fun sigs => l [a "ok", l (sigs.map (fun sg => l [Sexp.ofNat sg.b, ofU64 sg.amount, Sexp.ofNat sg.ks]))])
+  | .balance r =>
+    let kv (xs : List (Nat × UInt64)) : Sexp := l ((sortKs xs).map (fun (k, v) => l [Sexp.ofNat k, ofU64 v]))
+    exc r (fun b => l [a "ok", kv b.issued, kv b.redeemed, ofU64 b.total, Sexp.ofBool b.disabled])
+  | .rotated r => exc r (fun idx => l [a "ok", Sexp.ofNat idx, match op with | .rotate fee => ofU64 fee | _ => a "?"])
+  | .restarted r => exc r (fun idx => l [a "ok", Sexp.ofNat idx])
+
+def plainOps : Op → Bool
+  | .extInvoice .. | .settle .. | .armFault .. | .disarm => true
+  | _ => false
+
+def handle (s : Sess) (cmd : String) (args : List Sexp) : Option (Sess × Sexp) :=
+  match cmd, args with
+  | "mint.init", [fee, feePct, mpp, maxMint, maxBal, maxMelt] => do
+    let cfg : Cfg := { mpp := ← mpp.asBool?, maxMint := ← u64? maxMint, maxBalance := ← u64? maxBal, maxMelt := ← u64? maxMelt }
+    some (initSess (← u64? fee) (← feePct.asBool?) cfg, l [a "ok"])
+  | _, _ => do
+    let op ← op? cmd args
+    match op with
+    | .extInvoice id _ => if id != s.w.ln.invoices.length then none else pure ()
+    | _ => pure ()
+    let (s1, r) := applyOp s op
+    if plainOps op then some (s1, resSx op r)
+    else
+      let calls := match op with
+        | .checkState .. => s1.w.ln.calls.mergeSort (fun x y => x.hash ≤ y.hash)
+        | _ => s1.w.ln.calls
+      let trace := match op with
+        | .restart .. => []
+        | _ => s1.w.trace
+      some (s1, l [resSx op r, l (trace.map a), l (calls.map callSx)])
 
 end Gonuts.Model.MintDriver
